@@ -286,12 +286,22 @@ def make_annotate_then_kwoargs():
         return inner(*args, **kwargs)
     g = modifiers.kwoargs('b')(modifiers.annotate(a=int)(f))
     return g, [g, f]
+
+
+def make_annotate_then_kwoargs_nosource():
+    # the same, on a function whose source cannot be retrieved (built by exec): the discovery hint has nothing to say
+    ns = {}
+    exec("def f(a, b=1, *args, **kwargs):\\n    return a\\n", ns)
+    f = ns['f']
+    g = modifiers.kwoargs('b')(modifiers.annotate(a=int)(f))
+    return g, [g, f]
 '''
 
 SCENARIOS = ('wraps1', 'wraps2', 'own_signature', 'own_signature_and_wrapped', 'as_forged_class', 'as_forged_instance',
              'signature_property', 'forwards_to_function', 'forwards_emulate', 'forger_raises', 'kwoargs_function',
              'kwoargs_method', 'wrappers_decorator', 'partial_of_wraps', 'annotate_then_kwoargs',
-             'handbuilt_upgraded_signature', 'handbuilt_on_instance', 'forger_raises_emulate', 'as_forged_forger_fails')
+             'handbuilt_upgraded_signature', 'handbuilt_on_instance', 'forger_raises_emulate', 'as_forged_forger_fails',
+             'annotate_then_kwoargs_nosource')
 RETRIEVERS = (('sigtools.signature', lambda o: sigtools.signature(o)),
               ('inspect.signature', lambda o: inspect.signature(o)))
 
